@@ -373,7 +373,9 @@ class IPPO(MultiAgentRLAlgorithm):
         :rtype: torch.Tensor[float] or dict[str, torch.Tensor[float]] or Tuple[torch.Tensor[float], ...]
         """
         preprocessed = {homo_id: [] for homo_id in self.shared_agent_ids}
-        for agent_id, obs in observation.items():
+        # NOTE: Iterate in the order of the agent ids, outputs are disassembled in that order
+        for agent_id in (a for a in self.agent_ids if a in observation):
+            obs = observation[agent_id]
             homo_id = self.get_homo_id(agent_id)
             preprocessed[homo_id].append(
                 preprocess_observation(
